@@ -260,6 +260,23 @@ fn refs<T: Pod, X: Dummy>(cur: &VolatileSlice<'_, ()>, env: &mut Env, depth: usi
             if len.abs_diff(sz) <= 1 {
                 cx.nt("arg_within_1_of_boundary");
             }
+            // the byte views of an object that sits between two neighbours
+            {
+                let mut trio: [T; 3] = [T::zeroed(), T::zeroed(), T::zeroed()];
+                let mid = &trio[1] as *const T as usize;
+                let fillb = 0x80 | t.idx(64) as u8;
+                {
+                    let vs = trio[1].as_bytes();
+                    let e = Ext::of(&vs);
+                    ensure!(e.ptr == mid && e.len == size_of::<T>(), "{}::as_bytes() = {:x?}, the object is at {:#x}+{}", T::NAME, e, mid, size_of::<T>());
+                    vs.write_slice(&vec![fillb; e.len], 0).map_err(|err| format!("{}::as_bytes().write_slice: {:?}", T::NAME, err))?;
+                    ensure!(vs.write_obj(0u8, e.len).is_err(), "{}::as_bytes(): write one past the object succeeded", T::NAME);
+                }
+                ensure!(trio[0].as_slice().iter().all(|b| *b == 0) && trio[2].as_slice().iter().all(|b| *b == 0), "{}::as_bytes(): a write through the view changed a neighbouring object", T::NAME);
+                ensure!(trio[1].as_slice().len() == size_of::<T>() && trio[1].as_slice().iter().all(|b| *b == fillb), "{}::as_slice() does not show the bytes written through as_bytes()", T::NAME);
+                let ms = trio[1].as_mut_slice();
+                ensure!(ms.as_ptr() as usize == mid && ms.len() == size_of::<T>(), "{}::as_mut_slice() = {:#x}+{}, the object is at {:#x}+{}", T::NAME, ms.as_ptr() as usize, ms.len(), mid, size_of::<T>());
+            }
             go(cur, env, depth + 1, t, cx)
         }
     }
@@ -891,7 +908,7 @@ fn region_body(mem: &vm_memory::GuestMemoryMmap<()>, lay: &Layout, t: &mut Tape,
 pub fn property() -> Property {
     Property {
         id: "C01",
-        rule: "a case = a parent (slice of 0..256 bytes at any alignment inside canaries; slice flush against a PROT_NONE page at either end; mapped region / guest memory) + a chain of up to 8 derivations (subslice, offset, split_at, get_slice, as_volatile_slice, ArrayRef::from, get_ref/get_array_ref/ref_at -> to_slice, aligned_as_ref/mut, get_atomic_ref, from_slice/from_mut_slice) with arguments from {in range, 0, len-1, len, len+1, 2len, 2^32+-k, isize::MAX+-k, usize::MAX-k, pointer-overflowing, uniform}; each successful derivation is followed by a write+read through the new accessor and a comparison of everything outside it; xen build: the same roots over emulated foreign / advance-mapped grant / Unix regions, and chains over regions without a stable host pointer (grant regions mapped on demand) whose extents are tracked logically and judged by the device contents (bytes seen through the accessor's guard = device bytes of exactly that range; a write changes exactly that range); non-trivial = chain depth >= 2, an argument within 1 of a boundary, or an overflowing argument; distinct = decoded (parent, chain)",
+        rule: "a case = a parent (slice of 0..256 bytes at any alignment inside canaries; slice flush against a PROT_NONE page at either end; mapped region / guest memory) + a chain of up to 8 derivations (subslice, offset, split_at, get_slice, as_volatile_slice, ArrayRef::from, get_ref/get_array_ref/ref_at -> to_slice, aligned_as_ref/mut, get_atomic_ref, from_slice/from_mut_slice, as_bytes/as_slice/as_mut_slice of an object between neighbours) with arguments from {in range, 0, len-1, len, len+1, 2len, 2^32+-k, isize::MAX+-k, usize::MAX-k, pointer-overflowing, uniform}; each successful derivation is followed by a write+read through the new accessor and a comparison of everything outside it; xen build: the same roots over emulated foreign / advance-mapped grant / Unix regions, and chains over regions without a stable host pointer (grant regions mapped on demand) whose extents are tracked logically and judged by the device contents (bytes seen through the accessor's guard = device bytes of exactly that range; a write changes exactly that range); non-trivial = chain depth >= 2, an argument within 1 of a boundary, or an overflowing argument; distinct = decoded (parent, chain)",
         assumptions: &["fitting requests are not required to succeed here (that is C04's business): only 'does not fit => error' and containment are asserted", "out-of-parent reads are detected by PROT_NONE guard pages (worker crash, attributed by the driver) and by AddressSanitizer in the fuzz tier"],
         subchecks: vec![
             SubCheck { name: "framed", builds: &[Build::Std, Build::Plain], kind: Kind::Random { quick: 60_000, thorough: 3_000_000, max_words: 64 }, run: run_framed },
